@@ -15,7 +15,8 @@ package queue
 //@   lock q.mu : R
 
 //@ func (*queue.Queue).Enqueue
-//@   property C05 C01 C02
+//@   property C05 C01 C02 C09
+//@   refines [C09] (trie.Queuer).Enqueue with qn(self) := len(self.items); qe(self) := lambda i int :: self.items[i]
 //@   lock q.mu : none
 //@   modifies q.items, elems(q.items)
 //@   ensures len(q.items) == old(len(q.items)) + 1
@@ -50,7 +51,8 @@ package queue
 //@   ensures result == len(q.items) && result >= 0
 
 //@ func (*queue.Queue).Clear
-//@   property C05 C01 C02
+//@   property C05 C01 C02 C09
+//@   refines [C09] (trie.Queuer).Clear with qn(self) := len(self.items); qe(self) := lambda i int :: self.items[i]
 //@   lock q.mu : none
 //@   modifies q.items
 //@   ensures len(q.items) == 0
